@@ -10,7 +10,7 @@ From Coq Require Import List NArith Bool.
 Import ListNotations.
 From TV Require C21.Model.
 From TV Require Import Lib.Obs C43.Model C30.Model C30.Spec C30.Run.
-From TV Require Import C30.ProofsBytes C30.ProofsRT C30.ProofsTop C30.ProofsCheck.
+From TV Require Import C30.ProofsBytes C30.ProofsRT C30.ProofsTop C30.ProofsCheck C30.ProofsReq.
 Local Open Scope N_scope.
 
 (* ------------------------------------------------------------------ *)
@@ -26,21 +26,17 @@ Theorem C30_urlencoded_roundtrip :
 Proof. exact body_urlencoded_roundtrip. Qed.
 Print Assumptions C30_urlencoded_roundtrip.
 
-(* FULL STATEMENT (what the property asks; NOT provable for the code as it is, see the refuted
-   witness below):
-     forall cfg b e ps data, boundary_ok b = true ->
-       Forall (fun p => part_ok_full b p = true) ps -> config_ok cfg ps = true ->
-       encode_multipart b e ps = Some data -> parse_multipart cfg b data = Ok (expected ps).
-   part_ok_full: every name / filename is any non-empty text (quoted-string values without the
-   control characters a header line cannot carry; ext-values unrestricted), any byte content,
-   the delimiter "--boundary" occurring neither in the encoded part header nor in the content.
-
-   PROVED: the same with [part_ok] = part_ok_full minus the open finding D3 (a quoted-string name
-   ending in a backslash that is followed by a filename parameter). *)
-Theorem C30_multipart_roundtrip_partial :
+(* multipart: for every config, boundary of RFC 2046 bchars, epilogue choice and list of parts in
+   [part_ok_full] — every name / filename any non-empty text (quoted-string values without the
+   control characters a header line cannot carry; ext-values unrestricted), either style per
+   parameter, any byte content, the delimiter "--boundary" occurring neither in the encoded part
+   header nor in the content, limits not exceeded — both entry points return exactly the form.
+   (Full strength since fix 8596f7f; before it a quoted name ending in a backslash and followed
+   by a filename was lost — now the regression Example d3_form_roundtrips.) *)
+Theorem C30_multipart_roundtrip :
   forall cfg b e ps data,
     boundary_ok b = true ->
-    Forall (fun p => part_ok b p = true) ps ->
+    Forall (fun p => part_ok_full b p = true) ps ->
     config_ok cfg ps = true ->
     encode_multipart b e ps = Some data ->
     parse_multipart cfg b data = Ok (expected ps)
@@ -50,20 +46,7 @@ Proof.
   - exact (multipart_roundtrip cfg b e ps data Hb Hok Hcfg Henc).
   - exact (body_multipart_roundtrip cfg b e ps data Hb Hok Hcfg Henc).
 Qed.
-Print Assumptions C30_multipart_roundtrip_partial.
-
-(* D3 (open known finding d3-trailing-backslash-param): the form {a\ : file "f"} in
-   quoted-string style is in the full domain, encodes, and does NOT parse back; the
-   full-strength checker rejects the model's (= the implementation's) result. *)
-Theorem C30_multipart_roundtrip_trailing_backslash_refuted :
-  exists data,
-    boundary_ok [66] = true /\ forallb (part_ok_full [66]) d3_form = true /\ config_ok d3_cfg d3_form = true
-    /\ encode_multipart [66] true d3_form = Some data
-    /\ parse_multipart d3_cfg [66] data <> Ok (expected d3_form)
-    /\ check_case (false, [66], data, false, (true, 100, 10240), SMulti [66] true d3_form)
-                  (run_case (false, [66], data, false, (true, 100, 10240), SMulti [66] true d3_form)) = false.
-Proof. exact d3_witness. Qed.
-Print Assumptions C30_multipart_roundtrip_trailing_backslash_refuted.
+Print Assumptions C30_multipart_roundtrip.
 
 (* ------------------------------------------------------------------ *)
 (* (totality) clean failure: Ok or HTTPInputError, for every input     *)
@@ -123,17 +106,50 @@ Proof. exact oversized_header_rejected. Qed.
 Print Assumptions C30_oversized_part_header_is_rejected.
 
 (* ------------------------------------------------------------------ *)
+(* the server-side path: HTTPServerRequest arguments + _parse_body     *)
+(* ------------------------------------------------------------------ *)
+(* for EVERY query string, header list and body: after _parse_body, request.arguments holds, under
+   every name, the query values followed by the form values, and the query's names keep their places *)
+Theorem C30_request_arguments_are_query_then_form :
+  forall cfg query hdrs body args qargs bargs files,
+    request_parse cfg query hdrs body = ReqOk args qargs bargs files ->
+    (forall k, vget k args = vget k qargs ++ vals k bargs) /\ exists extra, keys args = keys qargs ++ extra.
+Proof. exact request_merge_law. Qed.
+Print Assumptions C30_request_arguments_are_query_then_form.
+
+(* urlencoded query + urlencoded form: the three dictionaries are exactly the pairs, and
+   arguments is what ONE list (query pairs then form pairs) would have given *)
+Theorem C30_request_urlencoded_roundtrip :
+  forall cfg qs bs,
+    forallb pair_ok qs = true -> forallb pair_ok bs = true ->
+    request_parse cfg (TV.C21.Model.encode_pairs qs) [(s_content_type, s_urlencoded)] (TV.C21.Model.encode_pairs bs)
+    = ReqOk (TV.C21.Model.group_pairs (qs ++ bs)) (TV.C21.Model.group_pairs qs) (TV.C21.Model.group_pairs bs) [].
+Proof. exact request_urlencoded_roundtrip. Qed.
+Print Assumptions C30_request_urlencoded_roundtrip.
+
+Theorem C30_request_parse_body_fails_cleanly :
+  forall cfg query hdrs body e,
+    request_parse cfg query hdrs body = ReqErr e -> e = EInput \/ e = EOutOfModel.
+Proof. exact request_clean. Qed.
+Print Assumptions C30_request_parse_body_fails_cleanly.
+
+(* a Content-Encoding header in any spelling (HTTPHeaders is case-insensitive) turns a form body
+   into an input error instead of being parsed as if it were not encoded *)
+Theorem C30_request_content_encoding_rejected :
+  forall cfg query hdrs body hh ct,
+    TV.C06.Model.add_all hdrs TV.C06.Model.empty_h = (TV.C06.Model.RUnit, hh) ->
+    TV.C06.Model.contains [67;111;110;116;101;110;116;45;69;110;99;111;100;105;110;103] hh = true ->
+    fst (TV.C06.Model.get_item s_content_type hh) = TV.C06.Model.RText ct ->
+    (is_prefix s_urlencoded ct = true \/ is_prefix s_multipart ct = true) ->
+    (exists qa, TV.C21.Model.parse_qs_bytes (TV.C21.Model.SStr query) true false = TV.C21.Model.Ok qa) ->
+    request_parse cfg query hdrs body = ReqErr EInput.
+Proof. exact request_content_encoding_rejected. Qed.
+Print Assumptions C30_request_content_encoding_rejected.
+
+(* ------------------------------------------------------------------ *)
 (* the checker applied to the implementation's observables             *)
 (* ------------------------------------------------------------------ *)
-(* check_case (full strength) = check_case_d3 except on D3 forms; the model satisfies the latter
-   on every input *)
-Theorem C30_model_satisfies_checker_except_d3 :
-  forall i, check_case_d3 i (run_case i) = true.
-Proof. exact model_satisfies_checker_d3. Qed.
-Print Assumptions C30_model_satisfies_checker_except_d3.
-
-(* ... and the full-strength checker agrees with it on every input whose form has no D3 part *)
-Theorem C30_checkers_agree_off_d3 :
-  forall i o, no_d3 i = true -> check_case i o = check_case_d3 i o.
-Proof. exact checkers_agree. Qed.
-Print Assumptions C30_checkers_agree_off_d3.
+Theorem C30_model_satisfies_checker :
+  forall t, check_tcase t (run_tcase t) = true.
+Proof. exact model_satisfies_tchecker. Qed.
+Print Assumptions C30_model_satisfies_checker.
